@@ -18,7 +18,7 @@ pub struct FixedProg {
 /// Every program defines FNA (succeeds), FNZ (fails inside its body, parameter named like a
 /// variable the program reads later) on its first line and sets Y to 1.
 pub fn fixed_programs() -> Vec<FixedProg> {
-    let head = "1 DEF FNA(Q)=Q+1: DEF FNZ(Y)=Y/0: DEF FNW(X)=FNZ(X)+1: DEF FNU(X)=FNA(X)*2: Y=1: X=2: A$=\"s\": DEF FNV(Y)=";
+    let head = "1 DIM H(4): H(2)=46: DEF FNA(Q)=Q+1: DEF FNZ(Y)=Y/0: DEF FNW(X)=FNZ(X)+1: DEF FNU(X)=FNA(X)*2: Y=1: X=2: A$=\"s\": DEF FNV(Y)=";
     vec![
         FixedProg {
             name: "nested FOR",
@@ -52,7 +52,7 @@ pub fn fixed_programs() -> Vec<FixedProg> {
         },
         FixedProg {
             name: "arrays",
-            lines: vec![head, "20 DIM M(2,2): M(1,2)=7: B(3)=Y", "30 FOR I=0 TO 2: PRINT M(1,I);B(I+1);: NEXT I", "40 PRINT Y"],
+            lines: vec![head, "20 DIM M(2,2): M(1,2)=7: B(3)=Y", "30 FOR I=0 TO 2: PRINT M(1,I);B(I+1);: NEXT I", "40 PRINT Y;H(2)"],
             replies: vec![],
         },
         FixedProg {
@@ -98,7 +98,12 @@ pub fn fixed_programs() -> Vec<FixedProg> {
     ]
 }
 
-pub const INSPECTIONS: [&str; 21] = [
+pub const INSPECTIONS: [&str; 24] = [
+    // END typed at a breakpoint ends nothing (there is no run to end) and forgets nothing
+    "END",
+    "PRINT I;: END",
+    // a DIM that is refused (H exists from the moment Y is 1) leaves the array as it was
+    "IF Y THEN DIM H(9)",
     // a call that succeeds two functions deep; refused array stores (nothing may come to exist)
     "PRINT FNU(3)",
     "D(1)=\"X\"",
